@@ -65,7 +65,8 @@ def complete(p):
     return p
 
 
-def prog_constants(p, j=1, max_hist=4, max_cmds=3, unlocked_bug=False, selfdep_panics=False):
+def prog_constants(p, j=1, max_hist=4, max_cmds=3, unlocked_bug=False, selfdep_panics=False,
+                   max_crash=0, crash_window=False):
     """TLA+ definitions for the constants of RedoSys."""
     plain = p['plain']
     rules = p['rules']
@@ -87,6 +88,9 @@ def prog_constants(p, j=1, max_hist=4, max_cmds=3, unlocked_bug=False, selfdep_p
     d['MaxCmds'] = str(max_cmds)
     d['UnlockedBug'] = 'TRUE' if unlocked_bug else 'FALSE'
     d['SelfDepPanics'] = 'TRUE' if selfdep_panics else 'FALSE'
+    d['MaxCrash'] = str(p.get('max_crash', max_crash))
+    d['CrashWindow'] = 'TRUE' if p.get('crash_window', crash_window) else 'FALSE'
+    d['StampWindow'] = 'TRUE' if p.get('stamp_window', False) else 'FALSE'
     # SQLite's default BINARY collation orders by bytes
     d['NameSeq'] = seq([s(x) for x in sorted(list(plain) + list(rules), key=lambda x: x.encode())])
     return d
@@ -498,6 +502,25 @@ def cycle_family():
     ]
     fam[-1]['bounds'] = (1, 1)
     return [complete(p) for p in fam]
+
+
+# kills (C10) ---------------------------------------------------------------------------------
+def crash_family(window=False, stamp_window=False):
+    out_ = []
+    base = [chain(), stamped(1, 'plain'), outputs('outfile', [('file', 0), ('stdout', 0)], user_t=False), ifcreate_prog()]
+    for p in base:
+        p = dict(p)
+        p['name'] = 'crash_' + p['name'] + ('_w' if window else '') + ('_s' if stamp_window else '')
+        p['stamp_window'] = stamp_window
+        p['cmds'] = [c for c in p['cmds'] if c[0] == 'ifchange'][:1]
+        p['user'] = [x for x in p['user'] if x in ('s', 'x')][:1]
+        p['rm'] = []
+        p['doedits'] = []
+        p['max_crash'] = 1
+        p['crash_window'] = window
+        p['bounds'] = (4, 3)
+        out_.append(complete(p))
+    return out_
 
 
 FAMILY_DEEP = [fail_diamond, override2, stamp_toggle, stamped_deep, ifcreate_deep, do_recreate]
